@@ -1,6 +1,8 @@
 package props
 
 import (
+	"bytes"
+	"io"
 	"encoding/json"
 	"fmt"
 	"net"
@@ -31,6 +33,7 @@ import (
 type c18Case struct {
 	Auth      []string          `json:"authentication"`
 	TLS       string            `json:"tls"` // disable | certificate
+	TLSWord   string            `json:"tls_setting_spelled,omitempty"` // with a certificate: what the Tls setting says ("" = auto). Everything but "disable" means TLS
 	HostSel   string            `json:"host_selection"`
 	QueryKey  bool              `json:"query_token_key"`
 	EmptyHosts bool             `json:"hosts_present_but_empty,omitempty"` // (only with 0 hosts) the file says "Hosts: []" instead of leaving the setting out
@@ -51,6 +54,9 @@ func genC18(t *rapid.T) c18Case {
 	c := c18Case{Via: map[string]string{}}
 	c.Auth = rapid.SampledFrom(c18AuthSets).Draw(t, "auth")
 	c.TLS = rapid.SampledFrom([]string{"disable", "certificate"}).Draw(t, "tls")
+	if c.TLS == "certificate" && rapid.IntRange(0, 2).Draw(t, "tlsWord") == 0 {
+		c.TLSWord = rapid.SampledFrom([]string{"enable", "on", "Auto", "manual", "yes", "Disable"}).Draw(t, "tlsSpelling")
+	}
 	// other spellings are no mode the documentation names: whatever the gateway makes of them, it must not end up
 	// running signed host selection without a key (probed below on instances that start)
 	c.HostSel = rapid.SampledFrom([]string{"roundrobin", "signed", "signed", "signed", "unsigned", "any", "Signed", "SIGNED", "signed ", "RoundRobin"}).Draw(t, "hostsel")
@@ -163,7 +169,11 @@ func (c c18Case) build() (gwproc.Config, []string) {
 	if c.TLS == "disable" {
 		put("tls", "Server", "Tls", "RDPGW_SERVER__TLS", "disable", "auto")
 	} else {
-		put("tls", "Server", "Tls", "RDPGW_SERVER__TLS", "auto", "disable")
+		word := "auto"
+		if c.TLSWord != "" {
+			word = c.TLSWord
+		}
+		put("tls", "Server", "Tls", "RDPGW_SERVER__TLS", word, "disable")
 	}
 	cfg.Set("Server", "CertFile", c18Cert).Set("Server", "KeyFile", c18Key)
 	decoySel := "roundrobin"
@@ -242,6 +252,18 @@ func runC18(c c18Case) *Violation {
 	}
 	if exited || !in.Listening() {
 		return viol("c18/good-config-refused", "a consistent configuration did not start (exit %v code %d): %s\n stderr: %s", exited, code, desc, tail(in.Stderr(), 700))
+	}
+	if c.TLS != "disable" && (has(c.Auth, "local") || has(c.Auth, "basic")) {
+		// local authentication is only allowed because TLS is on: a request in the clear must not be asked for Basic credentials
+		if conn, derr := net.DialTimeout("tcp", in.Addr, 3*time.Second); derr == nil {
+			conn.SetDeadline(time.Now().Add(3 * time.Second))
+			fmt.Fprintf(conn, "GET /remoteDesktopGateway/ HTTP/1.1\r\nHost: %s\r\nConnection: close\r\n\r\n", in.Addr)
+			rb, _ := io.ReadAll(io.LimitReader(conn, 4096))
+			conn.Close()
+			if bytes.HasPrefix(rb, []byte("HTTP/1.1 401")) && bytes.Contains(bytes.ToLower(rb), []byte("www-authenticate: basic")) {
+				return viol("c18/basic-authentication-in-the-clear", "local authentication with Tls %q: the gateway started and asks for Basic credentials on a connection without TLS: %s\n answer: %q", c.TLSWord, desc, shorten(string(rb)))
+			}
+		}
 	}
 	if c.TokenAuth == "false" {
 		// whatever the authentication list says: an instance that behaves as an OpenID gateway (its /connect sends the
